@@ -322,6 +322,26 @@ func (r *c40Run) commitWithReader(blk *types.Block) {
 		errCh <- err
 	}()
 	world.Quiesce()
+	// a failing check must not unwind the run while the commit is still stopped:
+	// the verdict is kept, the commit goes on to its end, then the verdict is raised
+	var verdict interface{}
+	func() {
+		defer func() { verdict = recover() }()
+		r.readerChecks(blk, prev, reached)
+	}()
+	resume()
+	err := <-errCh
+	if verdict != nil {
+		panic(verdict)
+	}
+	if err != nil {
+		c.Fail("block-rejected", r.sig, "ledger refuses its own block %d: %v", blk.Header.Height, err)
+	}
+	r.appendRec(blk)
+}
+
+func (r *c40Run) readerChecks(blk *types.Block, prev uint32, reached <-chan struct{}) {
+	c, ch := r.c, r.ch
 	select {
 	case <-reached:
 		c.Probe("reader_during_commit")
@@ -340,11 +360,6 @@ func (r *c40Run) commitWithReader(blk *types.Block) {
 		}
 	default:
 	}
-	resume()
-	if err := <-errCh; err != nil {
-		c.Fail("block-rejected", r.sig, "ledger refuses its own block %d: %v", blk.Header.Height, err)
-	}
-	r.appendRec(blk)
 }
 
 // commitWithCrash is the crash/reopen protocol of C01 on a single ledger: the
